@@ -332,6 +332,116 @@ theorem skipDecl_self (b : List Chunk) (R : List Char) (hb : b.all Chunk.wf = tr
 theorem reverse_cons_append {α : Type} (d : α) (acc l : List α) :
     (d :: acc).reverse ++ l = acc.reverse ++ d :: l := by simp
 
+/-! one scanner step per kind of item -/
+
+theorem step_peRef (f : Nat) (w n R : List Char) (acc : List Decl) (live : Bool)
+    (hw : w.all isWs = true) (hn : nameOk n = true) :
+    intSubset (f + 1) (w ++ ((SubItem.peRef n).render ++ R)) acc live = intSubset f R acc false := by
+  obtain ⟨c, t, hnc, hc, hall⟩ := nameOk_head hn
+  conv => lhs; unfold intSubset
+  simp only [SubItem.render, List.cons_append, List.append_assoc, List.nil_append]
+  rw [skipWs_ws_then w '%' _ hw (by decide)]
+  have htn : takeName (n ++ ';' :: R) = (n, ';' :: R) :=
+    takeName_target n (';' :: R) hall (by show isNameChar ';' = false; decide)
+  have hne : n.isEmpty = false := by rw [hnc]; rfl
+  simp only [htn, hne, Bool.false_eq_true, ↓reduceIte]
+
+theorem step_comment (f : Nat) (w b R : List Char) (acc : List Decl) (live : Bool)
+    (hw : w.all isWs = true) (hb : noDD b = true) :
+    intSubset (f + 1) (w ++ ((SubItem.comment b).render ++ R)) acc live
+      = intSubset f R (.comment :: acc) live := by
+  conv => lhs; unfold intSubset
+  simp only [SubItem.render, List.cons_append, List.append_assoc, List.nil_append]
+  rw [skipWs_ws_then w '<' _ hw (by decide)]
+  simp only [lit_comment, stripPrefix, beq_self_eq_true, ↓reduceIte, afterComment_render b R hb]
+  split
+  · next heq => exact absurd (List.cons.inj heq).1 (by decide)
+  · next heq => exact absurd (List.cons.inj heq).1 (by decide)
+  · rfl
+
+theorem step_pi (f : Nat) (w b R : List Char) (acc : List Decl) (live : Bool)
+    (hw : w.all isWs = true) (hb : noQG b = true) :
+    intSubset (f + 1) (w ++ ((SubItem.pi b).render ++ R)) acc live
+      = intSubset f R (.pi :: acc) live := by
+  conv => lhs; unfold intSubset
+  simp only [SubItem.render, List.cons_append, List.append_assoc, List.nil_append]
+  rw [skipWs_ws_then w '<' _ hw (by decide)]
+  have e1 : ('!' == '?') = false := by decide
+  simp only [lit_comment, lit_pi, lit_qg, stripPrefix, beq_self_eq_true, ↓reduceIte, e1,
+    Bool.false_eq_true, after_qg b R hb]
+  split
+  · next heq => exact absurd (List.cons.inj heq).1 (by decide)
+  · next heq => exact absurd (List.cons.inj heq).1 (by decide)
+  · rfl
+
+theorem step_entity (f : Nat) (w R : List Char) (e : EntD) (acc : List Decl) (live : Bool)
+    (hw : w.all isWs = true) (he : e.wf = true) :
+    intSubset (f + 1) (w ++ ((SubItem.entity e).render ++ R)) acc live
+      = intSubset f R ((if live then e.decl else .element) :: acc) live := by
+  conv => lhs; unfold intSubset
+  simp only [SubItem.render, List.cons_append, List.append_assoc, List.nil_append]
+  rw [skipWs_ws_then w '<' _ hw (by decide)]
+  have e1 : ('-' == 'E') = false := by decide
+  have e2 : ('?' == '!') = false := by decide
+  simp only [lit_comment, lit_pi, lit_entity, stripPrefix, beq_self_eq_true, ↓reduceIte, e1, e2,
+    Bool.false_eq_true, entityDecl_render e R he]
+  split
+  · next heq => exact absurd (List.cons.inj heq).1 (by decide)
+  · next heq => exact absurd (List.cons.inj heq).1 (by decide)
+  · rfl
+
+theorem step_element (f : Nat) (w R : List Char) (b : List Chunk) (acc : List Decl) (live : Bool)
+    (hw : w.all isWs = true) (hb : b.all Chunk.wf = true) :
+    intSubset (f + 1) (w ++ ((SubItem.element b).render ++ R)) acc live
+      = intSubset f R (.element :: acc) live := by
+  conv => lhs; unfold intSubset
+  simp only [SubItem.render, List.cons_append, List.append_assoc, List.nil_append]
+  rw [skipWs_ws_then w '<' _ hw (by decide)]
+  have e1 : ('-' == 'E') = false := by decide
+  have e2 : ('?' == '!') = false := by decide
+  have e3 : ('N' == 'L') = false := by decide
+  simp only [lit_comment, lit_pi, lit_entity, lit_element, stripPrefix, beq_self_eq_true, ↓reduceIte, e1, e2, e3,
+    Bool.false_eq_true, skipDecl_self b R hb]
+  split
+  · next heq => exact absurd (List.cons.inj heq).1 (by decide)
+  · next heq => exact absurd (List.cons.inj heq).1 (by decide)
+  · rfl
+
+theorem step_attlist (f : Nat) (w R : List Char) (b : List Chunk) (acc : List Decl) (live : Bool)
+    (hw : w.all isWs = true) (hb : b.all Chunk.wf = true) :
+    intSubset (f + 1) (w ++ ((SubItem.attlist b).render ++ R)) acc live
+      = intSubset f R (.attlist :: acc) live := by
+  conv => lhs; unfold intSubset
+  simp only [SubItem.render, List.cons_append, List.append_assoc, List.nil_append]
+  rw [skipWs_ws_then w '<' _ hw (by decide)]
+  have e1 : ('-' == 'A') = false := by decide
+  have e2 : ('?' == '!') = false := by decide
+  have e3 : ('E' == 'A') = false := by decide
+  simp only [lit_comment, lit_pi, lit_entity, lit_element, lit_attlist, stripPrefix, beq_self_eq_true, ↓reduceIte,
+    e1, e2, e3, Bool.false_eq_true, skipDecl_self b R hb]
+  split
+  · next heq => exact absurd (List.cons.inj heq).1 (by decide)
+  · next heq => exact absurd (List.cons.inj heq).1 (by decide)
+  · rfl
+
+theorem step_notation (f : Nat) (w R : List Char) (b : List Chunk) (acc : List Decl) (live : Bool)
+    (hw : w.all isWs = true) (hb : b.all Chunk.wf = true) :
+    intSubset (f + 1) (w ++ ((SubItem.notation b).render ++ R)) acc live
+      = intSubset f R (.notation :: acc) live := by
+  conv => lhs; unfold intSubset
+  simp only [SubItem.render, List.cons_append, List.append_assoc, List.nil_append]
+  rw [skipWs_ws_then w '<' _ hw (by decide)]
+  have e1 : ('-' == 'N') = false := by decide
+  have e2 : ('?' == '!') = false := by decide
+  have e3 : ('E' == 'N') = false := by decide
+  have e4 : ('A' == 'N') = false := by decide
+  simp only [lit_comment, lit_pi, lit_entity, lit_element, lit_attlist, lit_notation, stripPrefix,
+    beq_self_eq_true, ↓reduceIte, e1, e2, e3, e4, Bool.false_eq_true, skipDecl_self b R hb]
+  split
+  · next heq => exact absurd (List.cons.inj heq).1 (by decide)
+  · next heq => exact absurd (List.cons.inj heq).1 (by decide)
+  · rfl
+
 /-- **The internal subset is read back exactly.**  On the text of any internal subset the grammar
 derives (items in any number and order, each preceded by optional white space, closed by `]`),
 `intSubset` returns the declarations the grammar derives — processed entity declarations while
@@ -343,7 +453,7 @@ theorem intSubset_parses : ∀ (items : List (List Char × SubItem)) (wi rest : 
       = (acc.reverse ++ subsetDecls live items, some rest)
   | [], wi, rest, fuel, acc, live, hf, _, hwi => by
     obtain ⟨f, rfl⟩ : ∃ f, fuel = f + 1 := ⟨fuel - 1, by simp at hf; omega⟩
-    rw [intSubset]
+    conv => lhs; unfold intSubset
     simp only [renderSubset, List.nil_append]
     rw [skipWs_ws_then wi ']' rest hwi (by decide)]
     simp [subsetDecls]
@@ -355,101 +465,349 @@ theorem intSubset_parses : ∀ (items : List (List Char × SubItem)) (wi rest : 
     have hw' : w.all isWs = true := hw
     have ih := fun acc' live' =>
       intSubset_parses r wi rest f acc' live' hf' (by simpa [subsetWf] using hr) hwi
-    rw [intSubset]
     simp only [renderSubset, List.append_assoc]
-    generalize hR : renderSubset r ++ (wi ++ ']' :: rest) = R at ih ⊢
     cases it with
     | peRef n =>
-      have hn : nameOk n = true := by simpa [SubItem.wf] using hit
-      obtain ⟨c, t, hnc, hc, hall⟩ := nameOk_head hn
-      simp only [SubItem.render, List.cons_append, List.append_assoc, List.nil_append]
-      rw [skipWs_ws_then w '%' _ hw' (by decide)]
-      have htn : takeName (n ++ ';' :: R) = (n, ';' :: R) :=
-        takeName_target n (';' :: R) hall (by show isNameChar ';' = false; decide)
-      have hne : n.isEmpty = false := by rw [hnc]; rfl
-      split
-      · next heq => exact absurd (List.cons.inj heq).1 (by decide)
-      · next r0 heq =>
-        have hr0 : r0 = n ++ ';' :: R := (List.cons.inj heq).2.symm
-        subst hr0
-        rw [htn]
-        simp only [hne, Bool.false_eq_true, ↓reduceIte]
-        rw [ih]
-        rfl
-      · next h1 h2 => exact absurd rfl (h2 _)
+      rw [step_peRef f w n _ acc live hw' (by simpa only [SubItem.wf] using hit), ih]; rfl
     | comment b =>
-      have hb : noDD b = true := hit
-      simp only [SubItem.render, List.cons_append, List.append_assoc, List.nil_append]
-      rw [skipWs_ws_then w '<' _ hw' (by decide)]
-      simp only [lit_comment, stripPrefix, beq_self_eq_true, ↓reduceIte, afterComment_render b R hb, ih,
-        subsetDecls, reverse_cons_append]
-      split
-      · next heq => exact absurd (List.cons.inj heq).1 (by decide)
-      · next heq => exact absurd (List.cons.inj heq).1 (by decide)
-      · rfl
+      rw [step_comment f w b _ acc live hw' (by simpa only [SubItem.wf] using hit), ih,
+        reverse_cons_append]; rfl
     | pi b =>
-      have hb : noQG b = true := hit
-      simp only [SubItem.render, List.cons_append, List.append_assoc, List.nil_append]
-      rw [skipWs_ws_then w '<' _ hw' (by decide)]
-      have e1 : ('!' == '?') = false := by decide
-      simp only [lit_comment, lit_pi, lit_qg, stripPrefix, beq_self_eq_true, ↓reduceIte, e1,
-        Bool.false_eq_true, after_qg b R hb, ih, subsetDecls, reverse_cons_append]
-      split
-      · next heq => exact absurd (List.cons.inj heq).1 (by decide)
-      · next heq => exact absurd (List.cons.inj heq).1 (by decide)
-      · rfl
+      rw [step_pi f w b _ acc live hw' (by simpa only [SubItem.wf] using hit), ih,
+        reverse_cons_append]; rfl
     | entity e =>
-      have he : e.wf = true := hit
-      simp only [SubItem.render, lit_entity, List.cons_append, List.append_assoc, List.nil_append]
-      rw [skipWs_ws_then w '<' _ hw' (by decide)]
-      have e1 : ('-' == 'E') = false := by decide
-      have e2 : ('?' == '!') = false := by decide
-      simp only [lit_comment, lit_pi, stripPrefix, beq_self_eq_true, ↓reduceIte, e1, e2,
-        Bool.false_eq_true, entityDecl_render e R he, ih, subsetDecls, reverse_cons_append]
-      split
-      · next heq => exact absurd (List.cons.inj heq).1 (by decide)
-      · next heq => exact absurd (List.cons.inj heq).1 (by decide)
-      · rfl
+      rw [step_entity f w _ e acc live hw' (by simpa only [SubItem.wf] using hit), ih,
+        reverse_cons_append]; rfl
     | element b =>
-      have hb : b.all Chunk.wf = true := hit
-      simp only [SubItem.render, lit_element, List.cons_append, List.append_assoc, List.nil_append]
-      rw [skipWs_ws_then w '<' _ hw' (by decide)]
-      have e1 : ('-' == 'E') = false := by decide
-      have e2 : ('?' == '!') = false := by decide
-      have e3 : ('N' == 'L') = false := by decide
-      simp only [lit_comment, lit_pi, lit_entity, stripPrefix, beq_self_eq_true, ↓reduceIte, e1, e2, e3,
-        Bool.false_eq_true, skipDecl_self b R hb, ih, subsetDecls, reverse_cons_append]
-      split
-      · next heq => exact absurd (List.cons.inj heq).1 (by decide)
-      · next heq => exact absurd (List.cons.inj heq).1 (by decide)
-      · rfl
+      rw [step_element f w _ b acc live hw' (by simpa only [SubItem.wf] using hit), ih,
+        reverse_cons_append]; rfl
     | attlist b =>
-      have hb : b.all Chunk.wf = true := hit
-      simp only [SubItem.render, lit_attlist, List.cons_append, List.append_assoc, List.nil_append]
-      rw [skipWs_ws_then w '<' _ hw' (by decide)]
-      have e1 : ('-' == 'A') = false := by decide
-      have e2 : ('?' == '!') = false := by decide
-      have e3 : ('E' == 'A') = false := by decide
-      simp only [lit_comment, lit_pi, lit_entity, lit_element, stripPrefix, beq_self_eq_true, ↓reduceIte,
-        e1, e2, e3, Bool.false_eq_true, skipDecl_self b R hb, ih, subsetDecls, reverse_cons_append]
-      split
-      · next heq => exact absurd (List.cons.inj heq).1 (by decide)
-      · next heq => exact absurd (List.cons.inj heq).1 (by decide)
-      · rfl
+      rw [step_attlist f w _ b acc live hw' (by simpa only [SubItem.wf] using hit), ih,
+        reverse_cons_append]; rfl
     | «notation» b =>
-      have hb : b.all Chunk.wf = true := hit
-      simp only [SubItem.render, lit_notation, List.cons_append, List.append_assoc, List.nil_append]
-      rw [skipWs_ws_then w '<' _ hw' (by decide)]
-      have e1 : ('-' == 'N') = false := by decide
-      have e2 : ('?' == '!') = false := by decide
-      have e3 : ('E' == 'N') = false := by decide
-      have e4 : ('A' == 'N') = false := by decide
-      simp only [lit_comment, lit_pi, lit_entity, lit_element, lit_attlist, stripPrefix, beq_self_eq_true,
-        ↓reduceIte, e1, e2, e3, e4, Bool.false_eq_true, skipDecl_self b R hb, ih, subsetDecls,
-        reverse_cons_append]
-      split
-      · next heq => exact absurd (List.cons.inj heq).1 (by decide)
-      · next heq => exact absurd (List.cons.inj heq).1 (by decide)
-      · rfl
+      rw [step_notation f w _ b acc live hw' (by simpa only [SubItem.wf] using hit), ih,
+        reverse_cons_append]; rfl
+
+theorem length_renderSubset (items : List (List Char × SubItem)) :
+    items.length ≤ (renderSubset items).length := by
+  induction items with
+  | nil => simp [renderSubset]
+  | cons x r ih =>
+    obtain ⟨w, it⟩ := x
+    cases it <;> simp [renderSubset, SubItem.render] <;> omega
+
+theorem doctypeTail_parses (d : DoctypeG) (rest : List Char) (hd : d.wf = true) :
+    doctypeTail d.ext.isSome (d.w2 ++ (d.renderSub ++ '>' :: rest)) = (d.value, some rest) := by
+  simp only [DoctypeG.wf, Bool.and_eq_true] at hd
+  obtain ⟨⟨⟨_, hw2⟩, _⟩, hsub⟩ := hd
+  have hw2' : d.w2.all isWs = true := hw2
+  unfold doctypeTail DoctypeG.renderSub DoctypeG.value
+  cases hs : d.subset with
+  | none =>
+    simp only [List.nil_append]
+    rw [skipWs_ws_then d.w2 '>' rest hw2' (by decide)]
+    split
+    · next heq => exact absurd (List.cons.inj heq).1 (by decide)
+    · next heq => rw [(List.cons.inj heq).2]
+    · next h1 h2 => exact absurd rfl (h2 _)
+  | some p =>
+    obtain ⟨items, wi, w3⟩ := p
+    simp only [hs, Bool.and_eq_true] at hsub
+    obtain ⟨⟨hit, hwi⟩, hw3⟩ := hsub
+    simp only [List.cons_append, List.append_assoc]
+    rw [skipWs_ws_then d.w2 '[' _ hw2' (by decide)]
+    simp only
+    have hlen : items.length < (renderSubset items ++ (wi ++ ']' :: (w3 ++ '>' :: rest))).length + 1 := by
+      have := length_renderSubset items
+      simp only [List.length_append]; omega
+    rw [intSubset_parses items wi (w3 ++ '>' :: rest) _ [] true hlen hit hwi]
+    simp only [List.reverse_nil, List.nil_append, gt_after_ws w3 rest hw3]
+
+/-- the text after the name and external identifier starts with white space, `[` or `>` -/
+theorem doctype_after_head (d : DoctypeG) (rest : List Char) (hw2 : d.w2.all isWs = true) :
+    ∃ q y, skipWs (d.w2 ++ (d.renderSub ++ '>' :: rest)) = q :: y ∧ (q = '[' ∨ q = '>') := by
+  unfold DoctypeG.renderSub
+  cases d.subset with
+  | none => exact ⟨'>', rest, by simpa using skipWs_ws_then d.w2 '>' rest hw2 (by decide), Or.inr rfl⟩
+  | some p =>
+    obtain ⟨items, wi, w3⟩ := p
+    exact ⟨'[', _, by simpa using skipWs_ws_then d.w2 '[' _ hw2 (by decide), Or.inl rfl⟩
+
+/-- … and that first character is not a name character -/
+theorem doctype_text_head (d : DoctypeG) (rest : List Char) (hw2 : d.w2.all isWs = true) :
+    ∃ q y, d.w2 ++ (d.renderSub ++ '>' :: rest) = q :: y ∧ isNameChar q = false := by
+  cases hw : d.w2 with
+  | cons a t' =>
+    rw [hw] at hw2
+    simp only [List.all_cons, Bool.and_eq_true] at hw2
+    exact ⟨a, _, rfl, isWs_not_name a hw2.1⟩
+  | nil =>
+    unfold DoctypeG.renderSub
+    cases d.subset with
+    | none => exact ⟨'>', rest, rfl, by decide⟩
+    | some p => exact ⟨'[', _, rfl, by decide⟩
+
+/-- **The DOCTYPE declaration is read back exactly** (`<!DOCTYPE` already consumed): name, optional
+external identifier, optional internal subset, `>` -/
+theorem doctypeDecl_parses (d : DoctypeG) (rest : List Char) (hd : d.wf = true) :
+    doctypeDecl (d.render ++ rest) = (d.value, some rest) := by
+  have hd0 := hd
+  simp only [DoctypeG.wf, Bool.and_eq_true] at hd
+  obtain ⟨⟨⟨⟨hw1, hn⟩, hw2⟩, hext⟩, hsub⟩ := hd
+  have hw2' : d.w2.all isWs = true := hw2
+  obtain ⟨c, t, hnc, hc, hall⟩ := nameOk_head hn
+  have hne : d.name.isEmpty = false := by rw [hnc]; rfl
+  have htail := doctypeTail_parses d rest hd0
+  obtain ⟨q, y, hqy, hq⟩ := doctype_after_head d rest hw2'
+  unfold doctypeDecl DoctypeG.render
+  simp only [List.append_assoc, List.cons_append, List.nil_append]
+  have hsk : skipWs (d.w1 ++ (d.name ++ (d.renderExt ++ (d.w2 ++ (d.renderSub ++ '>' :: rest)))))
+      = d.name ++ (d.renderExt ++ (d.w2 ++ (d.renderSub ++ '>' :: rest))) := by
+    rw [hnc]; exact skipWs_ws_then d.w1 c _ (wsReq_all hw1) (name_not_ws c hc)
+  rw [hsk]
+  unfold DoctypeG.renderExt at *
+  cases hx : d.ext with
+  | none =>
+    simp only [hx, List.nil_append] at htail ⊢
+    have hy : match d.w2 ++ (d.renderSub ++ '>' :: rest) with
+        | [] => True | c :: _ => isNameChar c = false := by
+      obtain ⟨q0, y0, h0, hq0⟩ := doctype_text_head d rest hw2'
+      rw [h0]; exact hq0
+    rw [takeName_target d.name _ hall hy]
+    simp only [hne, Bool.false_eq_true, ↓reduceIte]
+    -- no external identifier
+    have hE : externalId (d.w2 ++ (d.renderSub ++ '>' :: rest)) = some (false, q :: y) := by
+      unfold externalId
+      simp only [lit_system, lit_public, hqy]
+      rcases hq with rfl | rfl <;> simp [stripPrefix]
+    rw [hE]
+    simp only
+    -- doctypeTail skips the (already skipped) white space again
+    have hidem : doctypeTail false (q :: y) = doctypeTail false (d.w2 ++ (d.renderSub ++ '>' :: rest)) := by
+      unfold doctypeTail
+      rw [hqy]
+      rcases hq with rfl | rfl <;> rw [skipWs_nonws _ y (by decide)]
+    rw [hidem]
+    simpa using htail
+  | some wx =>
+    obtain ⟨wE, x⟩ := wx
+    simp only [hx, Bool.and_eq_true] at hext
+    simp only [hx, List.append_assoc] at htail ⊢
+    rw [takeName_then_ws d.name wE _ hn hext.1]
+    simp only [hne, Bool.false_eq_true, ↓reduceIte]
+    have hE : externalId (wE ++ (x.render ++ (d.w2 ++ (d.renderSub ++ '>' :: rest))))
+        = some (true, d.w2 ++ (d.renderSub ++ '>' :: rest)) := by
+      have h0 := externalId_render x (d.w2 ++ (d.renderSub ++ '>' :: rest)) hext.2
+      unfold externalId at h0 ⊢
+      simp only at h0 ⊢
+      rw [skipWs_ws_append wE _ (wsReq_all hext.1)]
+      exact h0
+    rw [hE]
+    simpa using htail
+
+/-! ### the whole prolog -/
+
+/-- `misc` walks over `Misc*` whatever it has recorded so far -/
+theorem misc_skip : ∀ (items : List (List Char × MiscItem)) (X : List Char) (fuel n : Nat)
+    (dt : Option (Bool × List Decl)) (c xd : Bool), miscWf items = true →
+    misc (fuel + items.length) (renderMisc items ++ X) n dt c xd
+      = misc fuel X (if dt.isNone then n + items.length else n) dt c xd
+  | [], X, fuel, n, dt, c, xd, _ => by cases dt <;> simp [renderMisc]
+  | (w, it) :: rest, X, fuel, n, dt, c, xd, hi => by
+    simp only [miscWf, List.all_cons, Bool.and_eq_true] at hi
+    obtain ⟨⟨hw, hit⟩, hrest⟩ := hi
+    have ih := fun n' => misc_skip rest X fuel n' dt c xd (by simpa [miscWf] using hrest)
+    have hfuel : fuel + ((w, it) :: rest).length = (fuel + rest.length) + 1 := by simp; omega
+    rw [hfuel]
+    conv => lhs; unfold misc
+    simp only [renderMisc, List.append_assoc, skipWs_ws_append w _ hw]
+    cases it with
+    | comment b =>
+      simp only [MiscItem.wf] at hit
+      simp only [MiscItem.render, List.cons_append, List.append_assoc, List.nil_append, skipWs_lt]
+      rw [lit_comment]
+      simp only [stripPrefix, beq_self_eq_true, ↓reduceIte, afterComment_render b _ hit]
+      rw [ih]
+      cases dt with
+      | some v => simp
+      | none =>
+        simp only [Option.isNone_none, ↓reduceIte, List.length_cons]
+        have : n + 1 + rest.length = n + (rest.length + 1) := by omega
+        rw [this]
+    | pi t b =>
+      simp only [MiscItem.wf, Bool.and_eq_true, Bool.not_eq_eq_eq_not, Bool.not_true,
+        bne_iff_ne, ne_eq] at hit
+      obtain ⟨⟨⟨⟨hne, hall⟩, hxml⟩, hb⟩, hq⟩ := hit
+      simp only [MiscItem.render, List.cons_append, List.append_assoc, List.nil_append, skipWs_lt]
+      rw [lit_comment, lit_pi]
+      have e2 : ('!' == '?') = false := by decide
+      simp only [stripPrefix, beq_self_eq_true, ↓reduceIte, e2, Bool.false_eq_true]
+      have hy : match b ++ ('?' :: '>' :: (renderMisc rest ++ X)) with
+          | [] => True | c :: _ => isNameChar c = false := by
+        cases b with
+        | nil => simp only [List.nil_append]; decide
+        | cons c0 b' => simp only [List.cons_append]; exact isWs_not_name c0 (by simpa using hb)
+      rw [takeName_target t _ hall hy]
+      have hx : (t.map Char.toLower == "xml".toList) = false := by simpa using hxml
+      simp only [hx, Bool.false_eq_true, ↓reduceIte]
+      have haft : after "?>".toList (t ++ (b ++ '?' :: '>' :: (renderMisc rest ++ X)))
+          = some (renderMisc rest ++ X) := by
+        rw [lit_qg, ← List.append_assoc]
+        exact after_qg (t ++ b) _ hq
+      simp only [haft]
+      rw [ih]
+      cases dt with
+      | some v => simp
+      | none =>
+        simp only [Option.isNone_none, ↓reduceIte, List.length_cons]
+        have : n + 1 + rest.length = n + (rest.length + 1) := by omega
+        rw [this]
+
+/-- the DOCTYPE step of `misc` on a grammatical declaration -/
+theorem misc_doctype_step (f : Nat) (pad Y : List Char) (d : DoctypeG) (n : Nat) (c xd : Bool)
+    (hp : pad.all isWs = true) (hd : d.wf = true) :
+    misc (f + 1) (pad ++ ('<' :: '!' :: 'D' :: 'O' :: 'C' :: 'T' :: 'Y' :: 'P' :: 'E' :: (d.render ++ Y)))
+      n none c xd = misc f Y n (some d.value) true xd := by
+  conv => lhs; unfold misc
+  rw [skipWs_ws_then pad '<' _ hp (by decide)]
+  have e1 : ('-' == 'D') = false := by decide
+  have e2 : ('?' == '!') = false := by decide
+  simp only [lit_comment, lit_pi, lit_doctype, stripPrefix, beq_self_eq_true, ↓reduceIte, e1, e2,
+    Bool.false_eq_true, Option.isSome_none, doctypeDecl_parses d Y hd]
+
+/-- the final step of `misc`: the root element's start tag -/
+theorem misc_root_step (f : Nat) (pad tail : List Char) (n : Nat) (dt : Option (Bool × List Decl))
+    (c xd : Bool) (hp : pad.all isWs = true) (ht : startsRoot tail = true) :
+    misc (f + 1) (pad ++ tail) n dt c xd = ⟨false, xd, n, dt, c, some tail⟩ := by
+  unfold startsRoot at ht
+  cases tail with
+  | nil => simp at ht
+  | cons a0 r0 =>
+    cases r0 with
+    | nil => split at ht <;> simp_all
+    | cons a r1 =>
+      split at ht
+      · next c tl heq =>
+        simp only [List.cons.injEq] at heq
+        obtain ⟨rfl, rfl, rfl⟩ := heq
+        simp only [Bool.and_eq_true, bne_iff_ne, ne_eq] at ht
+        have e1 : ('!' == a) = false := by simp [Ne.symm ht.1]
+        have e2 : ('?' == a) = false := by simp [Ne.symm ht.2]
+        conv => lhs; unfold misc
+        rw [skipWs_ws_then pad '<' _ hp (by decide)]
+        simp [lit_comment, lit_pi, lit_doctype, stripPrefix, e1, e2]
+      · cases ht
+
+theorem length_miscItems (items : List (List Char × MiscItem)) :
+    items.length ≤ (renderMisc items).length := length_renderMisc items
+
+/-- the text of a whole prolog with a DOCTYPE declaration, up to the root element -/
+def prologText (xd : Option (Char × List Char)) (m1 : List (List Char × MiscItem)) (p1 : List Char)
+    (d : DoctypeG) (m2 : List (List Char × MiscItem)) (p2 tail : List Char) : List Char :=
+  renderXmlDecl xd ++ (renderMisc m1 ++ (p1 ++
+    ('<' :: '!' :: 'D' :: 'O' :: 'C' :: 'T' :: 'Y' :: 'P' :: 'E' :: (d.render ++ (renderMisc m2 ++ (p2 ++ tail))))))
+
+/-- `misc` on `Misc* S? doctypedecl Misc* S? element…` -/
+theorem misc_parses_prolog (m1 : List (List Char × MiscItem)) (p1 : List Char) (d : DoctypeG)
+    (m2 : List (List Char × MiscItem)) (p2 tail : List Char) (fuel : Nat) (xd : Bool)
+    (hm1 : miscWf m1 = true) (hp1 : p1.all isWs = true) (hd : d.wf = true)
+    (hm2 : miscWf m2 = true) (hp2 : p2.all isWs = true) (ht : startsRoot tail = true)
+    (hf : m1.length + m2.length + 2 ≤ fuel) :
+    misc fuel (renderMisc m1 ++ (p1 ++ ('<' :: '!' :: 'D' :: 'O' :: 'C' :: 'T' :: 'Y' :: 'P' :: 'E' ::
+      (d.render ++ (renderMisc m2 ++ (p2 ++ tail)))))) 0 none false xd
+      = ⟨false, xd, m1.length, some d.value, true, some tail⟩ := by
+  obtain ⟨f2, rfl⟩ : ∃ f2, fuel = ((f2 + 1) + m2.length + 1) + m1.length := ⟨fuel - m1.length - m2.length - 2, by omega⟩
+  rw [misc_skip m1 _ _ 0 none false xd hm1]
+  simp only [Option.isNone_none, ↓reduceIte, Nat.zero_add]
+  rw [misc_doctype_step _ p1 _ d _ false xd hp1 hd]
+  rw [misc_skip m2 _ (f2 + 1) _ (some d.value) true xd hm2]
+  simp only [Option.isNone_some, Bool.false_eq_true, ↓reduceIte]
+  exact misc_root_step f2 p2 tail _ _ true xd hp2 ht
+
+/-- **The scanner reads the whole prolog back.**  For every text
+`XMLDecl? Misc* S? '<!DOCTYPE' doctypedecl-body Misc* S? <root…` the grammar derives: the scan
+records exactly the grammar's DOCTYPE value (external identifier present?, the declarations of the
+internal subset with the §5.1 rule), marks it complete, counts the `Misc` items before it and
+stops at the root element. -/
+theorem scanProlog_parses (xd : Option (Char × List Char)) (m1 : List (List Char × MiscItem))
+    (p1 : List Char) (d : DoctypeG) (m2 : List (List Char × MiscItem)) (p2 tail : List Char)
+    (hx : xmlDeclWf xd = true) (hm1 : miscWf m1 = true) (hp1 : p1.all isWs = true)
+    (hd : d.wf = true) (hm2 : miscWf m2 = true) (hp2 : p2.all isWs = true)
+    (ht : startsRoot tail = true) :
+    let p := scanProlog (prologText xd m1 p1 d m2 p2 tail)
+    p.doctype = some d.value ∧ p.complete = true ∧ p.leading = m1.length ∧ p.rest = some tail ∧
+      p.xmlDecl = xd.isSome := by
+  have hlen : ∀ (Z : List Char), Z = renderMisc m1 ++ (p1 ++ ('<' :: '!' :: 'D' :: 'O' :: 'C' :: 'T' ::
+      'Y' :: 'P' :: 'E' :: (d.render ++ (renderMisc m2 ++ (p2 ++ tail))))) →
+      m1.length + m2.length + 2 ≤ Z.length + 1 := by
+    intro Z hZ
+    have h1 := length_renderMisc m1
+    have h2 := length_renderMisc m2
+    subst hZ
+    simp only [List.length_append, List.length_cons]; omega
+  unfold prologText
+  cases xd with
+  | none =>
+    simp only [renderXmlDecl, List.nil_append]
+    have hnox : ∀ c r, stripPrefix ['<', '?', 'x', 'm', 'l'] (renderMisc m1 ++ (p1 ++ ('<' :: '!' :: 'D' ::
+        'O' :: 'C' :: 'T' :: 'Y' :: 'P' :: 'E' :: (d.render ++ (renderMisc m2 ++ (p2 ++ tail))))))
+        = some (c :: r) → isWs c = false := by
+      intro c r h
+      have := no_xmldecl m1 p1 ('<' :: '!' :: 'D' :: 'O' :: 'C' :: 'T' :: 'Y' :: 'P' :: 'E' ::
+        (d.render ++ (renderMisc m2 ++ (p2 ++ tail)))) hm1 hp1
+        (Or.inl (by unfold startsDoctype; rw [lit_doctype]; simp [stripPrefix])) c r
+        (by simpa [List.append_assoc] using h)
+      exact this
+    have hm := misc_parses_prolog m1 p1 d m2 p2 tail _ false hm1 hp1 hd hm2 hp2 ht (hlen _ rfl)
+    unfold scanProlog
+    rw [lit_xmldecl]
+    split
+    · next c r heq =>
+      simp only [hnox c r heq, Bool.false_eq_true, ↓reduceIte]
+      rw [hm]
+      exact ⟨rfl, rfl, rfl, rfl, rfl⟩
+    · rw [hm]
+      exact ⟨rfl, rfl, rfl, rfl, rfl⟩
+  | some wb =>
+    obtain ⟨w, body⟩ := wb
+    simp only [xmlDeclWf, Bool.and_eq_true] at hx
+    obtain ⟨⟨hw, hq⟩, hv⟩ := hx
+    have hm := misc_parses_prolog m1 p1 d m2 p2 tail _ true hm1 hp1 hd hm2 hp2 ht (hlen _ rfl)
+    unfold scanProlog
+    rw [lit_xmldecl]
+    simp only [renderXmlDecl, List.cons_append, List.append_assoc, stripPrefix, beq_self_eq_true,
+      ↓reduceIte, hw]
+    rw [lit_qg, splitAt_qg body _ hq]
+    have lv : "version".toList = ['v', 'e', 'r', 's', 'i', 'o', 'n'] := by decide
+    have hv' : (stripPrefix "version".toList (skipWs body)).isNone = false := by
+      cases h0 : stripPrefix "version".toList (skipWs body) with
+      | none => rw [lv] at h0; simp [h0] at hv
+      | some _ => rfl
+    simp only [hv', Bool.false_eq_true, ↓reduceIte, List.nil_append]
+    rw [hm]
+    exact ⟨rfl, rfl, rfl, rfl, rfl⟩
+
+/-- processed entity declarations of the grammar = declarations the handlers fire on -/
+theorem subsetDecls_forbidden : ∀ (live : Bool) (items : List (List Char × SubItem)),
+    (subsetDecls live items).any Decl.forbiddenDecl = derivesEntityDecl live items
+  | _, [] => rfl
+  | live, (w, it) :: r => by
+    cases it with
+    | entity e =>
+      simp only [subsetDecls, derivesEntityDecl, List.any_cons, subsetDecls_forbidden live r]
+      cases live with
+      | false => simp [Decl.forbiddenDecl]
+      | true =>
+        have : e.decl.forbiddenDecl = true := by
+          unfold EntD.decl
+          cases e.defn <;> cases e.param.isSome <;> simp [Decl.forbiddenDecl]
+        simp [this]
+    | peRef n => simp only [subsetDecls, derivesEntityDecl, subsetDecls_forbidden false r]
+    | comment b => simp [subsetDecls, derivesEntityDecl, Decl.forbiddenDecl, subsetDecls_forbidden live r]
+    | pi b => simp [subsetDecls, derivesEntityDecl, Decl.forbiddenDecl, subsetDecls_forbidden live r]
+    | element b => simp [subsetDecls, derivesEntityDecl, Decl.forbiddenDecl, subsetDecls_forbidden live r]
+    | attlist b => simp [subsetDecls, derivesEntityDecl, Decl.forbiddenDecl, subsetDecls_forbidden live r]
+    | «notation» b =>
+      simp [subsetDecls, derivesEntityDecl, Decl.forbiddenDecl, subsetDecls_forbidden live r]
 
 end EPV.Globals.XmlText
